@@ -149,6 +149,9 @@ func specRel(opts []layers.TCPOption, a int, o int, isn uint32) uint32 {
 //@ requires[pre.nonnil]     s != nil && s.source != nil && s.parser != nil && s.parser.parserv4 != nil && s.parser.parserv6 != nil
 //@ requires[C10.hs.open]    selb(isOpen, ref(s.source))
 //@ ensures[C20.hs.done]     ret0 == nil ==> s.state != nil
+// the port the matcher compares against is the one handed in; the flow the driver matches on is not otherwise touched
+//@ ensures[C12.hs.port]     s.localPort == localPort && s.localAddr == old(s.localAddr) && s.params == old(s.params)
+//@ loop 1 invariant[C12.port] s.localPort == localPort && s.localAddr == old(s.localAddr) && s.params == old(s.params)
 // one absolute deadline for the whole handshake read (not re-armed per packet: unrelated traffic cannot extend it)
 //@ ensures[C08.hs.deadline.once] ncalls(Source.SetReadDeadline) == old(ncalls(Source.SetReadDeadline)) + 1
 //@ loop 1 invariant[C08.deadline.once] ncalls(Source.SetReadDeadline) == old(ncalls(Source.SetReadDeadline)) + 1
@@ -193,6 +196,13 @@ func specRel(opts []layers.TCPOption, a int, o int, isn uint32) uint32 {
 //@ before ReadHandshake assert[C10.sack.others.mid3] forallint(h, old(selb(isOpen, h)) ==> selb(isOpen, h))
 //@ before TracerouteParallel assert[C10.sack.others.mid4] forallint(h, old(selb(isOpen, h)) ==> selb(isOpen, h))
 //@ before TracerouteParallel assert[C10.sack.open] selb(isOpen, ref(driver.source)) && selb(isOpen, ref(driver.sink))
+// C12 (composition step): while the handshake is read the SYN-ACK filter is installed (the handshake matcher only takes
+// SYN-ACKs); for the trace the tuple filter is "from the target to the local port the driver matches on". (That the
+// filter's local address *bytes* equal driver.localAddr is checked by the code itself before the handshake, but is not
+// claimed here: ReadHandshake's frame is `*`, and a precise one would need to know that the net.TCPAddr returned by
+// conn.LocalAddr() does not share memory with the driver's read buffer, which no contract in reach can state.)
+//@ before Source.SetPacketFilter#1 assert[C12.sack.filter.hs] callarg0.FilterType == packets.FilterTypeSYNACK && ncalls("(*sackDriver).ReadHandshake") == old(ncalls("(*sackDriver).ReadHandshake"))
+//@ before Source.SetPacketFilter#2 assert[C12.sack.filter.run] callarg0.FilterType == packets.FilterTypeTCP && callarg0.FilterConfig.Src == driver.params.Target && callarg0.FilterConfig.Dst.Port() == driver.localPort && callarg0.FilterConfig.Dst.Addr().Is4() == driver.localAddr.Is4() && ncalls(TracerouteParallel) == old(ncalls(TracerouteParallel))
 //@ modifies *, ghost isOpen, ghost closeN, ghost clock, ghost sendN, ghost sendLog, ghost sendClock, ghost tcpDialed, ghost ioFail
 
 //@ func RunSackTraceroute
